@@ -14,9 +14,9 @@
 (*   "eq"   a, b          two terms claimed to denote the same quantity    *)
 (* out = [k |-> "expr", e |-> term] | [k |-> "unident"] | [k |-> "exc"]    *)
 (***************************************************************************)
-EXTENDS ID, ExprMath, Json, IOUtils
+EXTENDS ID, ExprMath, CF, Json, IOUtils
 
-CONSTANTS Seeds, Layout, Ternary   \* Layout: "edge" | "clique"; Ternary: set of nodes with 3 values
+CONSTANTS Seeds, Layout, Ternary, Fam     \* Fam: "S" stochastic | "F" functional models   \* Layout: "edge" | "clique"; Ternary: set of nodes with 3 values
 
 Trace == JsonDeserialize(IOEnv.TRACE_FILE)
 
@@ -40,7 +40,8 @@ PopTag(grp, G, p) ==
 ModelsOf(grp, G, seed) ==
   LET np == IF "pops" \in DOMAIN grp THEN Len(grp.pops) ELSE 0 IN
   [p \in 0..np |->
-     Model(G, LatOf(G), CardOf(G), IF p = 0 THEN NoTag(G) ELSE PopTag(grp, G, p), seed)]
+     IF Fam = "F" THEN ModelF(G, LatOf(G), CardOf(G), IF p = 0 THEN NoTag(G) ELSE PopTag(grp, G, p), seed)
+     ELSE Model(G, LatOf(G), CardOf(G), IF p = 0 THEN NoTag(G) ELSE PopTag(grp, G, p), seed)]
 
 OutTerm(r) == IF r.out.k = "expr" /\ "e" \in DOMAIN r.out THEN {r.out.e} ELSE {}
 RecTerms(r, grp_n) ==
@@ -50,6 +51,9 @@ RecTerms(r, grp_n) ==
     [] r.k = "calc"  -> OutTerm(r) \cup {Math(r.m), DevMath(r.m)}
     [] r.k = "canon" -> OutTerm(r) \cup {r.pre}
     [] r.k = "pp"    -> OutTerm(r) \cup {r.a}
+    [] r.k = "star"  -> OutTerm(r) \cup {EventTerm(r.ev, 0)}
+    [] r.k = "cstar" -> OutTerm(r) \cup {EventTerm(r.ev \o r.cond, 0), EventTerm(r.cond, 0)}
+    [] r.k = "cg"    -> {EventTerm(r.ev, 0)} \cup (IF r.out.k = "graph" THEN {EventTerm(r.out.ev, 0)} ELSE {})
     [] r.k = "tr"  -> OutTerm(r) \cup {TruthDo(ToSet(r.x), ToSet(r.y), 0)}
     [] r.k = "q"   -> OutTerm(r) \cup {TruthDo(ToSet(grp_n) \ ToSet(r.s), ToSet(r.s), 0)}
     [] OTHER -> {}
@@ -177,8 +181,73 @@ JudgeTr(grp, G, Ws, r) ==
             ELSE IF np = 0 /\ ~TianOK(G, X, Y) THEN Verdict(r.id, FALSE, "answered-unidentifiable", NoCmp)
             ELSE SemClause(r.id, Ws, r.out.e, TruthDo(X, Y, 0))
 
+\* ---- counterfactual records (C07, C08, C18; family F) --------------------------------------------
+\* does some reading the event permits make the estimand denote the target term?  (DESIGN 3.5)
+ReadCmp(Ws, e, ev, target) ==
+  LET rs == Readings(ev)
+      cs == [R \in rs |-> Cmp(Ws, ApplyReading(e, R), target)]
+      good == {R \in rs : cs[R].nbad = 0}
+  IN IF good # {} THEN cs[Pick(good)] ELSE cs[Pick(rs)]
+IsZeroEverywhere(Ws, t) == LET c == Cmp(Ws, t, ZeroT) IN c.nbad = 0
+\* ID*: an expression for P(event), zero only for impossible events, or the refusal
+JudgeStar(G, Ws, r) ==
+  LET truth == EventTerm(r.ev, 0) IN
+  CASE r.out.k = "exc" -> Verdict(r.id, FALSE, "other-failure", NoCmp)
+    [] r.out.k = "unident" -> Verdict(r.id, TRUE, "refused", NoCmp)
+    [] r.out.k = "expr" ->
+         IF "unser" \in DOMAIN r.out THEN Verdict(r.id, FALSE, "vocabulary", NoCmp)
+         ELSE IF r.out.e.t = "0" THEN
+              (IF IsZeroEverywhere(Ws, truth) THEN Verdict(r.id, TRUE, "zero-ok", NoCmp)
+               ELSE Verdict(r.id, FALSE, "zero-for-possible-event", NoCmp))
+         ELSE IF ~SingleWorldOnly(r.out.e) THEN Verdict(r.id, FALSE, "vocabulary", NoCmp)
+         ELSE LET c == ReadCmp(Ws, r.out.e, r.ev, truth) IN
+              IF c.nbad > 0 THEN Verdict(r.id, FALSE, "value", c)
+              ELSE IF c.ndef = 0 THEN Verdict(r.id, FALSE, "undefined-everywhere", c)
+              ELSE Verdict(r.id, TRUE, "ok", c)
+\* IDC*: P(outcomes and conditions) / P(conditions); an impossible condition must be rejected, not answered
+JudgeCStar(G, Ws, r) ==
+  LET joint == EventTerm(r.ev \o r.cond, 0)
+      cond  == EventTerm(r.cond, 0)
+      truth == FT(joint, cond)
+      impossible == IsZeroEverywhere(Ws, cond)
+  IN CASE r.out.k = "exc" -> IF r.out.exc = "ValueError" /\ impossible THEN Verdict(r.id, TRUE, "rejected-impossible-condition", NoCmp)
+                             ELSE IF r.out.exc = "ValueError" THEN Verdict(r.id, FALSE, "rejected-possible-condition", NoCmp)
+                             ELSE Verdict(r.id, FALSE, "other-failure", NoCmp)
+       [] r.out.k = "unident" -> Verdict(r.id, TRUE, "refused", NoCmp)
+       [] r.out.k = "expr" ->
+            IF impossible THEN Verdict(r.id, FALSE, "answered-impossible-condition", NoCmp)
+            ELSE IF "unser" \in DOMAIN r.out THEN Verdict(r.id, FALSE, "vocabulary", NoCmp)
+            ELSE IF r.out.e.t = "0" THEN
+                 (IF IsZeroEverywhere(Ws, joint) THEN Verdict(r.id, TRUE, "zero-ok", NoCmp)
+                  ELSE Verdict(r.id, FALSE, "zero-for-possible-event", NoCmp))
+            ELSE IF ~SingleWorldOnly(r.out.e) THEN Verdict(r.id, FALSE, "vocabulary", NoCmp)
+            ELSE LET c == ReadCmp(Ws, r.out.e, r.ev \o r.cond, truth) IN
+                 IF c.nbad > 0 THEN Verdict(r.id, FALSE, "value", c)
+                 ELSE IF c.ndef = 0 THEN Verdict(r.id, FALSE, "undefined-everywhere", c)
+                 ELSE Verdict(r.id, TRUE, "ok", c)
+\* make_counterfactual_graph: out = [k |-> "graph", nodes |-> <<var>>, d |-> << <<i, j>> >>, b |-> ..., ev |-> event]
+JudgeCG(G, Ws, r) ==
+  LET truth == EventTerm(r.ev, 0) IN
+  CASE r.out.k = "exc" -> Verdict(r.id, FALSE, "other-failure", NoCmp)
+    [] r.out.k = "inconsistent" -> IF IsZeroEverywhere(Ws, truth) THEN Verdict(r.id, TRUE, "inconsistent-ok", NoCmp)
+                                   ELSE Verdict(r.id, FALSE, "inconsistent-for-possible-event", NoCmp)
+    [] r.out.k = "graph" ->
+         LET m  == Len(r.out.nodes)
+             CGr == MkG(1..m, {<<e[1], e[2]>> : e \in ToSet(r.out.d)}, {{e[1], e[2]} : e \in ToSet(r.out.b)})
+             idx(v) == {i \in 1..m : r.out.nodes[i].n = v.n /\ ToSet(r.out.nodes[i].iv) = ToSet(v.iv)}
+             evn == UNION {idx(r.out.ev[i]) : i \in DOMAIN r.out.ev}
+         IN IF \E i \in DOMAIN r.out.ev : idx(r.out.ev[i]) = {} THEN Verdict(r.id, FALSE, "event-variable-not-a-node", NoCmp)
+            ELSE IF ~IsAcyclic(CGr) THEN Verdict(r.id, FALSE, "cyclic", NoCmp)
+            ELSE IF An(CGr, evn) # CGr.n THEN Verdict(r.id, FALSE, "not-ancestral", NoCmp)
+            ELSE LET c == Cmp(Ws, EventTerm(r.out.ev, 0), truth) IN
+                 IF c.nbad > 0 THEN Verdict(r.id, FALSE, "value", c)
+                 ELSE Verdict(r.id, TRUE, "ok", c)
+
 Judge(G, Ws, r) ==
   CASE r.k = "do"  -> JudgeDo(G, Ws, r)
+    [] r.k = "star"  -> JudgeStar(G, Ws, r)
+    [] r.k = "cstar" -> JudgeCStar(G, Ws, r)
+    [] r.k = "cg"    -> JudgeCG(G, Ws, r)
     [] r.k = "calc"  -> JudgeCalc(Ws, r)
     [] r.k = "canon" -> JudgeCanon(Ws, r)
     [] r.k = "pp"    -> JudgePP(Ws, r)
